@@ -641,25 +641,10 @@ def l2_chars(prog, rep):
                                   '6-bit character table differs from Annex 10 at codes %s' % bad, sample={'defined codes': 37} if tables == 1 else None)
     # the character function itself (after seed C03-s10 replaced the table by a formula): every u8 -> char function or
     # closure below a `callsign_read` is evaluated by the abstract interpreter on each of the 64 singleton codes
-    roots = [b for b in prog.bodies.values() if b['crate'] == 'rs1090' and b['kind'] == 'fn' and b['item'] == 'callsign_read']
     fns = 0
-    for b in util.static_reach(prog, roots):
-        if b['kind'] not in ('fn', 'closure'):
-            continue
-        tys = [prog.types[x]['s'] for x in b['locals'][:b['argc'] + 1]]
-        if not (tys and tys[0] == 'char' and tys[-1] == 'u8' and b['argc'] == (1 if b['kind'] == 'fn' else 2)):
-            continue
+    for b, table in util.char_functions(prog):
         fns += 1
-        bad = {}
-        for c in range(64):
-            E = runner.make_engine(prog, K=8)
-            args = [A.const_int(c)] if b['kind'] == 'fn' else [('T', b['locals'][1], None), A.const_int(c)]
-            vals = set()
-            for st, v in runner.run_entry(E, b, args, quiet=True):
-                x = E.scalar(st, v)
-                vals.add(x[1] if x[0] == 'I' and x[1] == x[2] else None)
-            if c in want and vals != {want[c]}:
-                bad[c] = sorted(chr(v) if isinstance(v, int) and 32 <= v < 127 else str(v) for v in vals)
+        bad = {c: sorted(chr(v) if isinstance(v, int) and 32 <= v < 127 else str(v) for v in table[c]) for c in want if table[c] != {want[c]}}
         rep.check(not bad, 'L2-characters', 'char-function@%s' % b['name'].split('::{closure')[0].split('::')[-1] + ('#closure' if b['kind'] == 'closure' else ''),
                   '%s:%s' % (b['file'], b['line']), 'the character function gives %s; Annex 10 gives %s' % (bad, {c: chr(want[c]) for c in bad}),
                   sample={'character function': b['name'].split('::')[-2 if b['kind'] == 'closure' else -1], 'codes evaluated': 64, 'defined codes': 37})
